@@ -1405,7 +1405,12 @@ static POW_VEC: &[f32] = &[
 fn write_num(num: f32, buf: &mut Vec<u8>, precision: u8) {
     // If number is an integer, it's faster to write it as i32.
     if num.fract().approx_zero_ulps(4) {
-        write!(buf, "{}", num as i32).unwrap();
+        if num.abs() < i32::MAX as f32 {
+            write!(buf, "{}", num as i32).unwrap();
+        } else {
+            // Doesn't fit into i32. No rounding is needed, since there is no fractional part.
+            write!(buf, "{}", num).unwrap();
+        }
         return;
     }
 
